@@ -483,6 +483,8 @@ pub fn run(out: &mut Out, tier: &str, seed: u64, prop: &str) {
                         out.oracle_fail("C19", &format!("rejected, but not with the dedicated unsupported-requirement error kind: {ans}"), serde_json::json!({"text": text}));
                     } else { out.stat("c19.unsupported"); }
                 }
+                #[cfg(feature = "ext")]
+                unnamed_oracle(out, &text, sh, suf);
                 // url helpers: implementation vs Lean model
                 out.evaluations += 1;
                 let sch = match pep508_rs::split_scheme(&text) { Some((a, b)) => format!("{}:{}", hex(a), hex(b)), None => "none".into() };
@@ -635,4 +637,50 @@ pub fn unescape(s: &str) -> String {
     }
     out.push_str(rest);
     out
+}
+
+/// C19 under `non-pep508-extensions`: the unnamed parser accepts the shapes, keeps the verbatim
+/// text, recovers extras and marker, and round-trips (texts without stray brackets)
+#[cfg(feature = "ext")]
+fn unnamed_oracle(out: &mut Out, text: &str, shape: &str, suffix: &str) {
+    use pep508_rs::UnnamedRequirement;
+    out.evaluations += 1;
+    if shape == "." || shape == ".." || shape.starts_with("${") || shape.starts_with('~') { return; }
+    // a bracket group separated from the URL by a space is outside the property's quantifier
+    // (is the space part of the path?): not judged
+    if suffix.starts_with(' ') && suffix.contains('[') { return; }
+    let r = std::panic::catch_unwind(|| UnnamedRequirement::<VerbatimUrl>::parse(text, "/work", &mut pep508_rs::TracingReporter));
+    let input = serde_json::json!({"text": text, "feature": "non-pep508-extensions"});
+    match r {
+        Err(_) => out.oracle_fail("C06", "UnnamedRequirement::parse panicked", input),
+        Ok(Err(e)) => {
+            let disp = std::panic::catch_unwind(std::panic::AssertUnwindSafe(|| e.to_string())).is_ok();
+            if !disp { out.oracle_fail("C06", "UnnamedRequirement error cannot be formatted", input.clone()); }
+            out.oracle_fail("C19", &format!("the unnamed-requirement parser rejects a bare URL / path / archive: {}", e.message), input);
+        }
+        Ok(Ok(u)) => {
+            out.stat("c19.unnamed_accepted");
+            if u.url.given() != Some(shape) {
+                out.oracle_fail("C19", &format!("verbatim text not kept: given() = {:?}", u.url.given()), input.clone());
+            }
+            let want_extras: Vec<&str> = if suffix.contains("[dev,test]") { vec!["dev", "test"] } else if suffix.contains("[dev]") { vec!["dev"] } else if suffix.contains("[x]") { vec!["x"] } else { vec![] };
+            // ` [x]` (space before the bracket) is not an extras suffix of the URL token
+            if !suffix.starts_with(' ') || !suffix.contains('[') {
+                let got: Vec<String> = u.extras.iter().map(|e| e.to_string()).collect();
+                if got != want_extras { out.oracle_fail("C19", &format!("extras not recovered: {:?}", got), input.clone()); }
+            }
+            let want_marker = suffix.contains(';');
+            if want_marker == u.marker.is_true() { out.oracle_fail("C19", "marker not recovered", input.clone()); }
+            // round trip of the rendered text
+            let shown = u.to_string();
+            match std::panic::catch_unwind(|| UnnamedRequirement::<VerbatimUrl>::parse(&shown, "/work", &mut pep508_rs::TracingReporter)) {
+                Ok(Ok(u2)) => {
+                    if u2.url != u.url || u2.extras != u.extras || u2.marker != u.marker {
+                        out.oracle_fail("C19", "the rendered unnamed requirement parses back to a different value", serde_json::json!({"text": text, "rendered": shown}));
+                    }
+                }
+                _ => out.oracle_fail("C19", "the rendered unnamed requirement does not parse", serde_json::json!({"text": text, "rendered": shown})),
+            }
+        }
+    }
 }
